@@ -125,14 +125,12 @@ Definition ok (v : vocab) (c : rcase) : bool :=
       end
   end.
 
-(* finding D07: a fluent with a repeated argument in the original text *)
+(* finding D07: the initial fluents of the original text are not [safe_repeats] *)
 Definition rknown (v : vocab) (c : rcase) : bool :=
   match read_text (r_text c) with
   | Ok e =>
       match read_problem (rnum c) e with
-      | Some sp =>
-          existsb (fun fl => has_dup_name (snd (fst fl))) (sp_fluents sp)
-          || existsb (fun g => match g with (_, l, r) => nexp_has_repeat l || nexp_has_repeat r end) (sp_goal_num sp)
+      | Some sp => negb (safe_repeats sp)
       | None => false
       end
   | Err _ => false
